@@ -100,6 +100,11 @@ def fcall(ex, b, rty, args, mem):
     if b == 'copysign':
         return FV(n, bits=(args[0].bits & bv((1 << (n - 1)) - 1, n)) | (args[1].bits & bv(1 << (n - 1), n)))
     if b == 'nextafter': return FV(n, bits=nextafter_bits(args[0], args[1], n))
+    if b == 'modf':      # (C11) bit-level libm models, validated against the native libm on every run
+        fr, ip = modf_model(args[0], n); ex.store(mem, args[1], ip, rty); return fr
+    if b == 'frexp':
+        m, e = frexp_model(ex, args[0], n); ex.store(mem, args[1], e, IntTy(32)); return m
+    if b == 'ldexp': return ldexp_model(args[0], args[1], n)
     if b == 'fmod': return FV(n, fp=z3.fpRem(args[0].fp, args[1].fp)) if False else FV(n, fp=_uf(ex, 'fmod%d' % n, [srt, srt, srt])(args[0].fp, args[1].fp))
     if b in TRANSC:
         f = _uf(ex, '%s%d' % (b, n), [srt] * (len(args) + 1))
@@ -115,6 +120,40 @@ def nextafter_bits(x, y, n):
     xpos = (xb & sign) == 0
     step = z3.If(isz, z3.If(up, one, sign | one), z3.If(up == xpos, xb + one, xb - one))
     return z3.If(z3.Or(z3.fpIsNaN(xf), z3.fpIsNaN(yf)), bv((1 << (n - 1)) - 1 if False else (0x7fc00000 if n == 32 else 0x7ff8000000000000), n), z3.If(z3.fpEQ(xf, yf), yb, step))
+
+def _fmt(n): return (8, 23) if n == 32 else (11, 52)
+def modf_model(x, n):
+    """C modf: integral part = trunc(x) (inf -> inf, NaN -> NaN); fractional part = x - trunc(x) (exact) carrying the sign of x
+    (+-inf -> +-0, NaN -> NaN).  returns (frac, intpart)"""
+    xf = x.fp; ip = z3.fpRoundToIntegral(RTZ, xf)
+    sign = x.bits & bv(1 << (n - 1), n); mag = bv((1 << (n - 1)) - 1, n)
+    fr = FV(n, fp=z3.fpSub(RNE, xf, ip))
+    return FV(n, bits=z3.If(z3.fpIsInf(xf), sign, z3.If(z3.fpIsNaN(xf), x.bits, (fr.bits & mag) | sign))), FV(n, fp=ip)
+def frexp_model(ex, x, n):
+    """C frexp on bit patterns: x = m * 2^e with 0.5 <= |m| < 1; zero -> (x, 0); inf/NaN -> (x, unspecified e)"""
+    eb, mb = _fmt(n); bias = (1 << (eb - 1)) - 1; b = x.bits
+    sign = z3.Extract(n - 1, n - 1, b); E = z3.Extract(n - 2, mb, b); M = z3.Extract(mb - 1, 0, b)
+    half = bv(bias - 1, eb)
+    h = bv(0, 32); Mn = M                      # subnormal: h = index of the highest set mantissa bit, Mn = mantissa shifted so that bit lands on the hidden position
+    for i in range(mb):
+        c = z3.Extract(i, i, M) == 1
+        h = z3.If(c, bv(i, 32), h); Mn = z3.If(c, M << (mb - i), Mn)
+    e_norm = z3.ZeroExt(32 - eb, E) - bv(bias - 1, 32); e_sub = h - bv(bias + mb - 2, 32)
+    isz = z3.And(E == 0, M == 0); sub = z3.And(E == 0, M != 0); spec = E == bv((1 << eb) - 1, eb)
+    m = z3.If(z3.Or(isz, spec), b, z3.Concat(sign, half, z3.If(sub, Mn, M)))
+    e = z3.If(isz, bv(0, 32), z3.If(spec, ex.fresh(32, 'frexp_unspec'), z3.If(sub, e_sub, e_norm)))
+    return FV(n, bits=m), e
+def ldexp_model(x, e, n):
+    """C ldexp/scalbn: x * 2^e rounded once (RNE) to the format, overflow -> inf, gradual underflow; zero/inf/NaN returned unchanged.
+    The scaling is done exactly in a format with 4 more exponent bits (exponent-field addition, no multiplier)."""
+    eb, mb = _fmt(n); web = eb + 4; ws = z3.FPSort(web, mb + 1); xf = x.fp
+    bias = (1 << (eb - 1)) - 1; L = 2 * (bias + mb) + 8
+    ec = z3.If(e > L, bv(L, 32), z3.If(e < -L, bv(-L, 32), e))
+    wb = z3.fpToIEEEBV(z3.fpFPToFP(RNE, xf, ws))
+    wexp = z3.Extract(web + mb - 1, mb, wb) + z3.Extract(web - 1, 0, ec)
+    scaled = z3.fpBVToFP(z3.Concat(z3.Extract(web + mb, web + mb, wb), wexp, z3.Extract(mb - 1, 0, wb)), ws)
+    r = FV(n, fp=z3.fpFPToFP(RNE, scaled, FSORT[n]))
+    return FV(n, bits=z3.If(z3.Or(z3.fpIsZero(xf), z3.fpIsInf(xf), z3.fpIsNaN(xf)), x.bits, r.bits))
 
 def rcall(ex, b, n, args):
     x = args[0].r
@@ -133,23 +172,10 @@ def rcall(ex, b, n, args):
     if b in ('minnum', 'fmin'): return RV(n, z3.If(args[1].r < x, args[1].r, x))
     if b in ('maxnum', 'fmax'): return RV(n, z3.If(args[1].r > x, args[1].r, x))
     if b in TRANSC:
-        # Ackermannised: one real variable per (function, simplified argument tuple)
-        tab = ex.__dict__.setdefault('trig', {})
-        def var(fn, argt):
-            key = (fn,) + tuple(z3.simplify(a).sexpr() for a in argt)
-            if key not in tab:
-                v = ex.fresh_real(fn); tab[key] = (v, argt)
-                for k2, (v2, a2) in list(tab.items()):
-                    if k2[0] == fn and k2 != key and len(a2) == len(argt):
-                        ex.axioms.append(z3.Implies(z3.And(*[p == q for p, q in zip(a2, argt)]), v2 == v))
-            return tab[key][0]
-        argt = tuple(a.r for a in args)
-        r = var(b, argt)
-        if b in ('sin', 'cos'):
-            sn = var('sin', argt); cs = var('cos', argt); ax = sn * sn + cs * cs == 1
-            if not any(ax.eq(a) for a in ex.axioms): ex.axioms.append(ax)
-        if b == 'tan': ex.axioms.append(r * var('cos', argt) == var('sin', argt)); 
-        return RV(n, r)
+        # Ackermannised: one real variable per (function, argument polynomial) plus true facts only - see engine/realtrig.py
+        # (hooks for property modules: realtrig.trig_var / real_pi / trig_sum / map_pi_literals, through res.ex)
+        import realtrig
+        return RV(n, realtrig.call(ex, b, tuple(a.r for a in args)))
     raise Unsupported('real call ' + b)
 
 def x86(ex, b, rty, args):
